@@ -530,6 +530,12 @@ void rfbClientCleanup(rfbClient* client) {
       rfbClientLog("inflateEnd: %s\n", client->decompStream.msg );
   }
 
+  if ( client->zrleStreamInited == TRUE ) {
+    if (inflateEnd (&client->zrleStream) != Z_OK &&
+	client->zrleStream.msg != NULL)
+      rfbClientLog("inflateEnd: %s\n", client->zrleStream.msg );
+  }
+
 #ifdef LIBVNCSERVER_HAVE_LIBJPEG
   if(client->tjhnd){
     tjDestroy(client->tjhnd);
